@@ -72,3 +72,25 @@ package input
 //@   modifies p[..], t.Conn.lastN, t.Conn.lastErrTag, t.Conn.lastErrRef, t.Conn.reads
 //@   ensures[passes_through; C12] t.Conn.reads == old(t.Conn.reads) || (t.Conn.reads == old(t.Conn.reads) ++ argsOf(p) && n == t.Conn.lastN && err.tag == t.Conn.lastErrTag && err.ref == t.Conn.lastErrRef)
 //@   ensures[no_read_means_error; C12] t.Conn.reads == old(t.Conn.reads) ==> n == 0 && err != nil
+
+// ---------------------------------------------------------------- listen.go: UDP (C12, C14)
+// Every datagram is handed to the handler as one reader over exactly its bytes (so the plain handler's contract
+// applies to it as to a TCP stream), and nothing a datagram contains can crash the listener glue.
+//@ iface (h Handler) Handle(r io.Reader) error
+//@   logged
+//@ iface (h Handler) Kind() string
+//@   pure
+//@ func handleData(l *Listener, data []byte, src net.Addr)
+//@   property C12,C14
+//@   requires l != nil && l.Handler != nil
+//@   modifies calls(l.Handler.Handle)
+//@   ensures[datagram_handled_whole_once; C12] exists r *bytes.Reader, tg int :: r != nil && r.rcontent == data[..] && calls(l.Handler.Handle) == old(calls(l.Handler.Handle)) ++ eP(eP(eI(tg), eI(r)), eNil)
+//@ func (l *Listener) HandleData(l2 *Listener, data []byte, src net.Addr)
+//@   requires l2 != nil && l2.Handler != nil
+//@   modifies calls(l2.Handler.Handle)
+//@ func (l *Listener) consumeUdp()
+//@   property C12,C14
+//@   requires l.udpConn != nil && l.Handler != nil && l.shutdown != nil
+//@   modifies *
+//@   loop 1:
+//@     invariant[wf] l.udpConn != nil && l.Handler != nil && l.shutdown != nil && len(buffer) == 65535
